@@ -190,9 +190,21 @@ Definition obj_eqb (x y : obj) : bool :=
 Definition rbytes_eqb := res_eqb bytes_eqb.
 Definition robj_eqb := res_eqb obj_eqb.
 
+(* ---- observations -------------------------------------------------------------------------
+   What the harness saw the implementation do: a value or an exception class ([Seen]), or
+   something outside that universe ([Unexpected]: an object whose fields cannot be dumped — e.g.
+   re-classed to a class whose attributes it lacks —, a non-message return value, an attribute of
+   the wrong type, a constructor that raised).  [Unexpected] never agrees with the model and the
+   property oracle rejects it wherever the property constrains the outcome. *)
+Inductive seen (A : Type) := Seen (r : res A) | Unexpected (what : string).
+Arguments Seen {A} r.
+Arguments Unexpected {A} what.
+Definition unseen {A} (s : seen A) : option (res A) :=
+  match s with Seen r => Some r | Unexpected _ => None end.
+
 (* ---- C01: encode ---------------------------------------------------------------------- *)
 (* case = (object, what bytes([m.function_code]) + m.encode() returned) *)
-Definition chk_enc (c : obj * res bytes) : bool * bool :=
+Definition chk_enc_r (c : obj * res bytes) : bool * bool :=
   let '(o, obs) := c in
   (rbytes_eqb (py_pdu o) obs,
    match abs o with
@@ -203,8 +215,14 @@ Definition chk_enc (c : obj * res bytes) : bool * bool :=
 (* ---- C01: decode ---------------------------------------------------------------------- *)
 (* case = (server?, the spec message that was put on the wire (None for the malformed stream),
            the bytes, what _helper returned, what the public decode() returned) *)
+Definition chk_enc (c : obj * seen bytes) : bool * bool :=
+  match unseen (snd c) with
+  | Some r => chk_enc_r (fst c, r)
+  | None => (false, false)
+  end.
+
 Definition wrap_eqb := res_eqb (option_eqb obj_eqb).
-Definition chk_dec (c : bool * option msg * bytes * res obj * res (option obj)) : bool * bool :=
+Definition chk_dec_r (c : bool * option msg * bytes * res obj * res (option obj)) : bool * bool :=
   let '(server, om, data, obs, wobs) := c in
   (robj_eqb (py_decode server data) obs && wrap_eqb (py_decode_wrapper server data) wobs &&
    match om with Some m => spec_wf m && bytes_eqb data (spec_pdu m) | None => true end,
@@ -218,6 +236,15 @@ Definition chk_dec (c : bool * option msg * bytes * res obj * res (option obj)) 
        wrap_eqb wobs (match obs with Ok o => Ok (Some o) | Raise e => Raise e end)
    | None => true
    end).
+
+(* an undumpable result never agrees with the model; it violates the property when the PDU was a
+   spec-conformant one (malformed input: the property does not constrain the outcome) *)
+Definition chk_dec (c : bool * option msg * bytes * seen obj * seen (option obj)) : bool * bool :=
+  let '(server, om, data, obs, wobs) := c in
+  match unseen obs, unseen wobs with
+  | Some r, Some w => chk_dec_r (server, om, data, r, w)
+  | _, _ => (false, match om with Some _ => false | None => true end)
+  end.
 
 (* ---- C02 ------------------------------------------------------------------------------ *)
 
@@ -267,7 +294,7 @@ Definition rt_domain (o : obj) : bool :=
 
 (* round trip: case = (server?, o, pdu(o), pdu(o) again on the same object,
                        decode of the first pdu, pdu of the decoded object, decode of that) *)
-Definition chk_rt (c : bool * obj * res bytes * res bytes * res obj * res bytes * res obj) : bool * bool :=
+Definition chk_rt_r (c : bool * obj * res bytes * res bytes * res obj * res bytes * res obj) : bool * bool :=
   let '(server, o, e1, e2, d1, e3, d2) := c in
   (rbytes_eqb (py_pdu o) e1 &&
    rbytes_eqb (py_pdu (snd (encode_st o))) e2 &&
@@ -293,11 +320,19 @@ Definition chk_rt (c : bool * obj * res bytes * res bytes * res obj * res bytes 
    | Raise _ => true
    end).
 
+Definition chk_rt (c : bool * obj * seen bytes * seen bytes * seen obj * seen bytes * seen obj) : bool * bool :=
+  let '(server, o, e1, e2, d1, e3, d2) := c in
+  match unseen e1, unseen e2, unseen d1, unseen e3, unseen d2 with
+  | Some a, Some b, Some c', Some d, Some e => chk_rt_r (server, o, a, b, c', d, e)
+  | _, _, _, _, _ => (false, false)
+  end.
+
 (* call histories on ONE object *)
 Inductive hop := HEnc | HDec (b : bytes).
 Inductive hout :=
 | HOEnc (r : res bytes)                    (* encode() result *)
-| HODec (r : res obj) (fresh_r : res obj). (* the object after decode(b) / a brand-new instance after decode(b) *)
+| HODec (r : res obj) (fresh_r : res obj)  (* the object after decode(b) / a brand-new instance after decode(b) *)
+| HOUnexpected (what : string).            (* something the harness could not dump (see [seen]) *)
 
 Definition hout_eqb (x y : hout) : bool :=
   match x, y with
@@ -332,6 +367,7 @@ Fixpoint prop_hist (prev : option bytes) (outs : list hout) : bool :=
   | HODec (Ok o) (Ok f) :: t => obj_eqb (blank o) (blank f) && prop_hist None t
   | HODec (Raise _) (Raise _) :: _ => true
   | HODec _ _ :: _ => false
+  | HOUnexpected _ :: _ => false
   end.
 
 (* the fresh-instance observation of the harness uses the class's default constructor; the
